@@ -304,6 +304,8 @@ def native_replay(unit: str, obligation: str, model: dict) -> tuple[bool, str]:
     sv = SV()
     from gallia.services.uds import helpers
     from gallia.services.uds.core import service as S
+    if unit.startswith("handler/security_access"):
+        return native_security_access()
     probes = {"handler/ecu_reset": [bytes([0x11, i]) for i in (1, 2, 3, 4, 0x84)],
               "handler/read_data_by_identifier/several": [
                   bytes([0x22]) + a.to_bytes(2, "big") + b.to_bytes(2, "big")
@@ -337,6 +339,44 @@ def native_replay(unit: str, obligation: str, model: dict) -> tuple[bool, str]:
                     return True, (f"seed {seed}: reply {r.pdu.hex()} to {raw.hex()} is refused "
                                   f"by parse_pdu: {type(e).__name__}")
         return False, "no refusal on the sampled seeds/requests"
+    return asyncio.run(go())
+
+
+def native_security_access() -> tuple[bool, str]:
+    """Seed request followed by the matching key, for every level a few models support: both
+    replies must be accepted by the client-side parse_pdu."""
+    import asyncio
+    sv = SV()
+    from gallia.services.uds import helpers
+    from gallia.services.uds.core import service as S
+
+    async def go() -> tuple[bool, str]:
+        prm = sv.RandomUDSServer.RandomnessParameters(p_service=1.0, p_sub_function=0.5)
+        tried = 0
+        for seed in range(1, 7):
+            srv = sv.RandomUDSServer(seed, prm)
+            await srv.setup()
+            for level in range(1, 0x42, 2):
+                q1 = S.RequestSeedRequest(level)
+                r1 = await srv.respond(q1)
+                if not isinstance(r1, S.SecurityAccessResponse):
+                    continue
+                helpers.parse_pdu(r1.pdu, q1)
+                q2 = S.SendKeyRequest(level + 1, r1.security_seed)
+                try:
+                    r2 = await srv.respond(q2)
+                except Exception as e:  # noqa: BLE001
+                    return True, f"seed {seed}: SendKey level {level + 1} raised {type(e).__name__}"
+                tried += 1
+                if r2 is None:
+                    continue
+                try:
+                    helpers.parse_pdu(r2.pdu, q2)
+                except Exception as e:  # noqa: BLE001
+                    return True, (f"RandomUDSServer(seed={seed}): {q1.pdu.hex()} -> "
+                                  f"{r1.pdu.hex()}, then {q2.pdu.hex()} -> {r2.pdu.hex()}, which "
+                                  f"the client refuses: {type(e).__name__}")
+        return False, f"{tried} seed/key exchanges accepted"
     return asyncio.run(go())
 
 
